@@ -337,7 +337,10 @@ Definition xguard (xs : xstate) (o : xop) : Prop :=
   | XAfter t tg dl => 1 <= t <= N /\ t_after (tm st t) = true /\ t_reg (tm st t) = 0 /\ 1 <= tg < T64
   | XSetTimer t c tg dl itv => 1 <= t <= N /\ t_after (tm st t) = false /\ 0 <= c < 3 /\ 1 <= tg < T64 /\ 1 <= itv < T64
   | XActivate t => 1 <= t <= N /\ t_reg (tm st t) = 0
-  | XSuspend t | XResume t => 1 <= t <= N /\ t_reg (tm st t) <> 0
+  | XSuspend t => 1 <= t <= N /\ t_reg (tm st t) <> 0 /\ t_susp (tm st t) = false
+  | XResume t => 1 <= t <= N /\ t_reg (tm st t) <> 0 /\ t_susp (tm st t) = true
+      (* single-level suspension: t_susp is a flag, not the suspend count of dq_state; a second dispatch_suspend before the
+         matching dispatch_resume is outside the histories of the theorems *)
   | XCancel t => 1 <= t <= N /\ t_reg (tm st t) <> 0 /\ t_after (tm st t) = false
   | XInvoke t now => 1 <= t <= N /\ x_enq xs t = true /\ t_susp (tm st t) = false /\ 0 <= now < T63
   | XDrain fuel nows => (forall i, 0 <= i < 3 -> 0 <= nows i < T63) /\ N < Z.of_nat fuel
@@ -428,7 +431,7 @@ Qed.
 
 Lemma xstep_suspend xs t : XInv xs -> xguard xs (XSuspend t) -> XInv (fst (xstep xs (XSuspend t))).
 Proof.
-  intros X (Ht & R). cbn [xstep fst]. apply (XInvW_add _ t).
+  intros X (Ht & R & _). cbn [xstep fst]. apply (XInvW_add _ t).
   - apply (xstep_set xs t (with_susp (tm (x_st xs) t) true)); cbn; auto. apply JL_susp, X.
   - unfold wake_ok. cbn [x_st]. change (top1 (x_st xs) (TSusp t 1)) with (set_timer (x_st xs) t (with_susp (tm (x_st xs) t) true)).
     rewrite tm_set_timer_eq. cbn. discriminate.
@@ -436,7 +439,7 @@ Qed.
 
 Lemma xstep_resume xs t : XInv xs -> xguard xs (XResume t) -> XInv (fst (xstep xs (XResume t))).
 Proof.
-  intros X (Ht & R). cbn [xstep fst]. apply x_wakeup_inv.
+  intros X (Ht & R & _). cbn [xstep fst]. apply x_wakeup_inv.
   apply (xstep_set xs t (with_susp (tm (x_st xs) t) false)); cbn; auto. apply JL_susp, X.
 Qed.
 
